@@ -82,7 +82,8 @@ func TestEngineBinsearch(t *testing.T) {
 			case '1':
 				return true, nil, nil
 			}
-			return false, nil, nil
+			// a successful probe reports the gas it used (what an estimator might be tempted to take as a bound)
+			return false, &evmtypes.MsgEthereumTxResponse{GasUsed: g - uint64(r.Intn(3))%(g+1)}, nil
 		})
 		obs := fmt.Sprintf("gas=%d", got)
 		if err != nil {
